@@ -84,23 +84,132 @@ def zdtype_name(dt) -> str:
 # --------------------------------------------------------------------------
 # abstraction of a real store (zarr API only)
 # --------------------------------------------------------------------------
-def parse_geff_attr(val, interner: Interner):
-    """attrs['geff'] -> abstract metadata (dict) or None when the library's pydantic model rejects it.
+SPEC_DTYPES = {"bool", "int8", "int16", "int32", "int64", "uint8", "uint16", "uint32", "uint64", "float32", "float64", "bytes", "str"}
+SPEC_AXIS_TYPES = {"space", "time", "channel"}
+SPEC_VERSION_RE = r"^\d+\.\d+(?:\.\d+)?(?:\.dev\d+)?(?:\+[a-zA-Z0-9]+)?"
+MD_DISAGREE: list = []  # (document, library verdict, spec verdict) for every document on which the two differ (read by the oracles)
 
-    Boundary: validity of the metadata document is decided by geff_spec.GeffMetadata.model_validate (modelled in C07/C08);
-    the structural content used by the store models is read off the raw JSON here."""
+
+def _num(x):
+    return isinstance(x, (int, float)) and not isinstance(x, bool)
+
+
+def _optstr(x):
+    return x is None or isinstance(x, str)
+
+
+def spec_md_valid(doc) -> bool:
+    """Is `doc` a valid geff metadata document?  Written from docs/specification.md and the published schema, WITHOUT geff_spec, so that
+    the verdict the store models take as input does not come from the code under test.  Exact on documents whose fields have their JSON
+    types (the generators produce no coercible values such as "true" for a boolean)."""
+    import re
+    from collections.abc import Mapping
+
+    import numpy as np
+
+    if not isinstance(doc, Mapping):
+        return False
+    if not isinstance(doc.get("directed"), bool):
+        return False
+    if "geff_version" in doc and not (isinstance(doc["geff_version"], str) and re.match(SPEC_VERSION_RE, doc["geff_version"])):
+        return False
+    for key in ("node_props_metadata", "edge_props_metadata"):
+        pm = doc.get(key)
+        if not isinstance(pm, Mapping):
+            return False
+        for k, e in pm.items():
+            if not isinstance(e, Mapping) or not isinstance(e.get("identifier"), str) or e["identifier"] == "" or e["identifier"] != k:
+                return False
+            dt = e.get("dtype")
+            if not isinstance(dt, str) or dt == "":
+                return False
+            try:
+                npdt = np.dtype(dt)
+            except TypeError:
+                return False
+            if ("str" if npdt.kind == "U" else npdt.name) not in SPEC_DTYPES:
+                return False
+            if not isinstance(e.get("varlength", False), bool) or not all(_optstr(e.get(f)) for f in ("unit", "name", "description")):
+                return False
+    axes = doc.get("axes")
+    names = []
+    if axes is not None:
+        if not isinstance(axes, list):
+            return False
+        for ax in axes:
+            if not isinstance(ax, Mapping) or not isinstance(ax.get("name"), str):
+                return False
+            if ax.get("type") is not None and ax["type"] not in SPEC_AXIS_TYPES:
+                return False
+            if not all(ax.get(f) is None or _num(ax[f]) for f in ("min", "max", "scale", "offset")):
+                return False
+            if not _optstr(ax.get("unit")) or not _optstr(ax.get("scaled_unit")):
+                return False
+            if (ax.get("min") is None) != (ax.get("max") is None):
+                return False
+            if ax.get("min") is not None and ax["min"] > ax["max"]:
+                return False
+            if ax.get("scaled_unit") and ax.get("scale") is None:
+                return False
+            names.append(ax["name"])
+        if len(names) != len(set(names)):
+            return False
+    dh = doc.get("display_hints")
+    if dh is not None:
+        if not isinstance(dh, Mapping) or not isinstance(dh.get("display_horizontal"), str) or not isinstance(dh.get("display_vertical"), str):
+            return False
+        if dh["display_horizontal"] not in names or dh["display_vertical"] not in names:
+            return False
+        for f in ("display_depth", "display_time"):
+            if dh.get(f) is not None and (not isinstance(dh[f], str) or dh[f] not in names):
+                return False
+    if not _optstr(doc.get("sphere")) or not _optstr(doc.get("ellipsoid")):
+        return False
+    tnp = doc.get("track_node_props")
+    if tnp is not None and not (isinstance(tnp, Mapping) and all(k in ("lineage", "tracklet") and isinstance(v, str) for k, v in tnp.items())):
+        return False
+    ro = doc.get("related_objects")
+    if ro is not None:
+        if not isinstance(ro, list):
+            return False
+        for r in ro:
+            if not isinstance(r, Mapping) or not isinstance(r.get("type"), str) or not isinstance(r.get("path"), str) or not _optstr(r.get("label_prop")):
+                return False
+            if r["type"] != "labels" and r.get("label_prop") is not None:
+                return False
+    if "extra" in doc and not isinstance(doc["extra"], Mapping):
+        return False
+    return True
+
+
+def parse_geff_attr(val, interner: Interner):
+    """attrs['geff'] -> abstract metadata (dict) or None when the document is not valid geff metadata.
+
+    The validity bit comes from `spec_md_valid` (independent of geff_spec); the library's own verdict (GeffMetadata.model_validate, modelled
+    in C07/C08) is computed beside it and every disagreement is recorded in MD_DISAGREE, so that a validator clause lost from the pydantic
+    model shows up as a difference instead of being fed back into the model as truth.  The structural content used by the store models is
+    read off the (normalised) JSON here."""
+    import json
     from collections.abc import Mapping
 
     from geff_spec import GeffMetadata
 
-    if not isinstance(val, Mapping):
-        return None
+    spec_ok = spec_md_valid(val)
+    obj = None
     try:
-        obj = GeffMetadata.model_validate(val)
+        if isinstance(val, Mapping):
+            obj = GeffMetadata.model_validate(val)
     except Exception:
+        obj = None
+    if spec_ok != (obj is not None):
+        try:
+            MD_DISAGREE.append((json.loads(json.dumps(val, default=str)), obj is not None, spec_ok))
+        except Exception:
+            MD_DISAGREE.append((None, obj is not None, spec_ok))
+    if not spec_ok:
         return None
     # defaulted fields that the document omits are filled in by the metadata model (C07/C08): abstract the normalised document
-    return abstract_meta_json(obj.model_dump(mode="json"), interner)
+    return abstract_meta_json(obj.model_dump(mode="json") if obj is not None else dict(val), interner)
 
 
 def _pm(d, interner):
